@@ -158,7 +158,8 @@ AccountsBegin(s) ==
     \/ \E a \in Accounts, sec \in SecIds, tp \in TP : BeginVerify(s, a, sec, tp[1], tp[2])
     \/ \E a \in Accounts, u \in {0, 1}, tp \in TP : BeginWrite(s, a, NewSector, u, tp[1], tp[2])
     \/ \E a \in Accounts : BeginBalance(s, a)
-AccountsRound2(s) == \E sf \in SF : Round2Repl(s, sf)
+    \/ \E a \in Accounts, part \in 0..3 : PartialWrite(s, a, 1, part)
+AccountsRound2(s) == \E sf \in SF \cup {"dedup"} : Round2Repl(s, sf)
 
 \* the host's part of a renewal (model checking: one plausible choice; the property is silent on it)
 XOf(kind, C) ==
@@ -177,11 +178,15 @@ RevisionsBegin(s) ==
     \/ \E deps \in OneDep, sf \in SF : BeginFund(s, deps, sf, "ok")
     \/ \E a \in Accounts, t \in Amts, cf \in CF : BeginRepl(s, "accts", <<a>>, t, cf, "ok")
     \/ \E p \in Pools, t \in Amts, cf \in CF : BeginRepl(s, "pools", <<p>>, t, cf, "ok")
+    \* an account / pool listed more than once is topped up (and paid for) once
+    \* (replay export only: in model checking the accounts family covers it)
+    \/ Edges /\ \E t \in Amts : BeginRepl(s, "pools", <<AnyPool, AnyPool, AnyPool>>, t, "ok", "ok")
+    \/ Edges /\ \E t \in Amts : BeginRepl(s, "accts", <<AnyAcc, AnyAcc>>, t, "ok", "ok")
     \/ \E kind \in RenewKinds, pf \in PF, cf \in CF, rf \in {"ok", "bad", "poolbad"} : BeginRenew(s, kind, pf, cf, rf, Allowance, Collateral)
 RevisionsRound2(s) ==
     \/ \E sf \in SF : Round2Free(s, sf)
     \/ \E sf \in SF : Round2Append(s, sf)
-    \/ \E sf \in SF : Round2Repl(s, sf)
+    \/ \E sf \in SF \cup {"dedup"} : Round2Repl(s, sf)
     \/ \E sf \in SF \cup {"badinput"} : Round2Renew(s, sf, XOf(sess[s].kind, sess[s].coll))
 
 \* Leg R, second renter: a few honest requests racing the first renter's exchange
